@@ -28,7 +28,8 @@ ABSENT_CLASS = "http://ex.org/C9"
 @st.composite
 def cases(draw):
     big = draw(st.integers(0, 5)) == 0      # now and then more instances per class and higher cardinalities
-    g = draw(gg.general(max_nodes=12 if big else 7, max_stmts=48 if big else 30, inst_props=(RDF_TYPE, RDF_TYPE, RDF_TYPE, "http://ex.org/isA")))
+    odd = draw(st.integers(0, 3)) == 0       # literals spelling a node's IRI, classes that are typed / used as values
+    g = draw(gg.general(max_nodes=12 if big else 7, max_stmts=48 if big else 30, iri_like_literals=odd, class_typing=odd, inst_props=(RDF_TYPE, RDF_TYPE, RDF_TYPE, "http://ex.org/isA")))
     cfg = draw(gg.switches())
     cfg.update(draw(gg.harmless_extras()))
     cfg["instances_report_mode"] = "mixed"
@@ -55,6 +56,7 @@ selftest = c01.selftest
 
 
 def check(case):
+    case = common.expanded(case)
     kw, triples = common.base_kwargs(case)
     text, crash = sut.shex(kw, acceptance_threshold=case["thr"])
     if crash is not None:
@@ -108,3 +110,12 @@ def check(case):
     if mine:
         return known(mine[0].sig, repr(mine[0]), labels, nt)
     return ok(labels, nt)
+
+
+def enumerate_cases(tier):
+    """scale family: thresholds exactly on, just below and just above (n-1)/n and 1/n for large n"""
+    sizes = [(250, 1, 1), (10001, 1, 1)] if tier == "quick" else [(250, 1, 1), (1000, 3, 2), (10001, 1, 1), (20001, 2, 3)]
+    for n, missing, double in sizes:
+        for thr in ((n - missing) / n, (n - missing) / n + 1e-9, (n - missing) / n - 1e-9, 1, double / n, 0.9999, 0.995):
+            yield {"g": {"scale": [n, missing, double]}, "target": {"mode": "all"}, "thr": thr,
+                   "cfg": {"instances_report_mode": "mixed", "inverse_paths": False}}
